@@ -16,6 +16,7 @@ def norm(line):
     s = re.sub(r'\[V\]', '', s)
     s = re.sub(r'Of\b', '', s)
     s = re.sub(r'Of\(', '(', s)
+    s = re.sub(r'Of(\$|Wrapper|Default|Presized)', r'\1', s)
     s = re.sub(r': K ::', ': string ::', s)
     s = re.sub(r'\s+', ' ', s).strip()
     return s
